@@ -9,6 +9,8 @@
 #include "world_builder/features/subducting_plate_models/temperature/adiabatic.h"
 #include "world_builder/features/subducting_plate_models/composition/uniform.h"
 #include "world_builder/features/subducting_plate_models/velocity/uniform_raw.h"
+#include "world_builder/features/subducting_plate_models/composition/smooth.h"
+#include "world_builder/features/fault_models/composition/smooth.h"
 #include "world_builder/features/fault_models/temperature/uniform.h"
 #include "world_builder/features/fault_models/temperature/linear.h"
 #include "world_builder/features/fault_models/temperature/adiabatic.h"
@@ -120,6 +122,41 @@ extern "C" void h_c05_line_linear_T(unsigned long fault, unsigned long any_range
 }
 extern "C" void h_c05_line_uniform_C(unsigned long fault, unsigned long n) { if (fault) line_uniform_C<FM::Composition::Uniform>(true, n); else line_uniform_C<SP::Composition::Uniform>(false, n); }
 extern "C" void h_c05_line_uniform_V(unsigned long fault) { if (fault) line_uniform_V<FM::Velocity::UniformRaw>(true); else line_uniform_V<SP::Velocity::UniformRaw>(false); }
+
+// smooth composition.  slab: between min and max distance from the slab top the fraction goes from 'top fractions' to 'bottom fractions' along
+// f(d) = (1 - tanh(10 (d - w/2 - min)/w))/2, w = |max - min|.  fault: from 'center fractions' at the centre to 'side fractions' at 'side distance'
+// along f(d) = (1 - tanh(10 (d - w/2)/w))/2 (d = distance from the centre as handed over by Fault::properties, non-negative).
+extern "C" void h_c05_line_smooth_C(unsigned long fault, unsigned long n)
+{
+  prm.set_len("compositions", unsigned(n)); prm.set_len("top fractions", unsigned(n)); prm.set_len("bottom fractions", unsigned(n)); prm.set_len("center fractions", unsigned(n)); prm.set_len("side fractions", unsigned(n));
+  Q q = query(); const unsigned number = sym_u32("number"); const double d = q.pd.distance_from_plane;
+  double C; Operations op; bool in_range, listed = false; double value = 0;
+  if (fault)
+    {
+      auto *m = build<FM::Composition::Smooth>(q.w);
+      for (unsigned i = 0; i < m->compositions.size(); ++i) for (unsigned j = 0; j < i; ++j) sym_assume(m->compositions[i] != m->compositions[j]);
+      sym_assume(d >= 0 && m->side_distance > 0);
+      C = m->FM::Composition::Smooth::get_composition(q.pos, q.depth, number, q.old, q.fmin, q.fmax, q.pd, q.ap); op = m->operation; in_range = true;
+      const double f = (1 - std::tanh(10 * (d - m->side_distance / 2) / m->side_distance)) / 2;
+      for (unsigned i = 0; i < m->compositions.size(); ++i) if (m->compositions[i] == number) { listed = true; value = m->center_fraction[i] * f + m->side_fraction[i] * (1 - f); }
+    }
+  else
+    {
+      auto *m = build<SP::Composition::Smooth>(q.w);
+      for (unsigned i = 0; i < m->compositions.size(); ++i) for (unsigned j = 0; j < i; ++j) sym_assume(m->compositions[i] != m->compositions[j]);
+      sym_assume(m->max_distance > m->min_distance);
+      C = m->SP::Composition::Smooth::get_composition(q.pos, q.depth, number, q.old, q.fmin, q.fmax, q.pd, q.ap); op = m->operation; in_range = d <= m->max_distance && d >= m->min_distance;
+      const double w = m->max_distance - m->min_distance;
+      const double f = (1 - std::tanh(10 * (d - w / 2 - m->min_distance) / w)) / 2;
+      for (unsigned i = 0; i < m->compositions.size(); ++i) if (m->compositions[i] == number) { listed = true; value = m->top_fraction[i] * f + m->bottom_fraction[i] * (1 - f); }
+    }
+  sym_assert(sym_writes() == 0, "the model query stores only to fresh memory");
+  if (!in_range) { sym_assert(sym_eq(C, q.old), "outside its own range the model returns the incoming value"); sym_reach("end-out"); return; }
+  if (listed) sym_assert(sym_eq(C, combine(op, q.old, value)), "smooth composition: the first fraction at the near end, the second at the far end, blended by (1 - tanh(10 (d - w/2)/w))/2");
+  else if (op == Operations::REPLACE) sym_assert(C == 0.0, "smooth composition: replace clears the compositions it does not list");
+  else sym_assert(sym_eq(C, q.old), "smooth composition: other operations leave unlisted compositions untouched");
+  sym_reach("end");
+}
 
 // ---- plume family
 extern "C" void h_c05_plume_uniform_T(void)
